@@ -1040,6 +1040,23 @@ def classify_path_sink(trees: typing.Dict[str, ast.Module], pars: typing.Dict[st
             sink = _is_sink_call(p)
             if sink:
                 return sink
+            if isinstance(p.func, ast.Attribute) and p.func.attr == 'add' and isinstance(p.func.value, ast.Name):
+                # remembered in a local set that is only ever asked `x in s`: a membership test (visited directories)
+                fn0 = p
+                while fn0 is not None and not isinstance(fn0, ast.FunctionDef):
+                    fn0 = par.get(id(fn0))
+                nm = p.func.value.id
+                uses = [n for n in ast.walk(fn0) if isinstance(n, ast.Name) and n.id == nm and isinstance(n.ctx, ast.Load)] if fn0 else []
+                ok = bool(uses)
+                for u in uses:
+                    up = par.get(id(u))
+                    if isinstance(up, ast.Attribute) and up.attr == 'add':
+                        continue
+                    if isinstance(up, ast.Compare) and all(isinstance(o, (ast.In, ast.NotIn)) for o in up.ops) and any(c is u for c in up.comparators):
+                        continue
+                    ok = False
+                if ok:
+                    return 'RdCompareOnly'
             if (qual(p.func, import_aliases(trees[rel])) or '') in ('pydsdl.read_files', 'pydsdl.read_namespace'):
                 return 'RdFrontEndInput'     # handed to the DSDL front end, which opens the files; not emitted
             if isinstance(p.func, ast.Name) and p.func.id in ('str', 'sorted', 'list', 'set', 'tuple', 'iter'):
@@ -1330,7 +1347,7 @@ def _package_dir(rel: str, expr: ast.AST) -> typing.Optional[str]:
     return None
 
 
-def classify_listing_sink(trees, pars, rel: str, node: ast.AST) -> str:
+def classify_listing_sink(trees, pars, rel: str, node: ast.AST, _depth: int = 0) -> str:
     """a directory listing has file-system order.  Accounted for when
          it is wrapped in sorted(...), or only added to a set/list that the function returns through sorted(...)  -> RdSortedListing
          it only feeds any()/next(..., default)/len()/a comparison                                                 -> RdMembership
@@ -1358,6 +1375,17 @@ def classify_listing_sink(trees, pars, rel: str, node: ast.AST) -> str:
             if only_adds and rets and all(is_sorted_expr(r.value) and ast.unparse(r.value.args[0] if is_call_to(r.value, 'sorted') else r.value.args[0].args[0]) in targets
                                           for r in rets):
                 return 'RdSortedListing'
+        if fn.name != 'iter_package_resources' and any(isinstance(x, (ast.Yield, ast.YieldFrom)) for x in ast.walk(fn)) and _depth < 1:
+            # a generator helper that yields in listing order: accounted for iff EVERY call of it is (e.g. only added to a set that is
+            # returned through sorted())
+            sinks = set()
+            for rel2, tree2 in trees.items():
+                for c in ast.walk(tree2):
+                    if isinstance(c, ast.Call) and isinstance(c.func, ast.Name) and c.func.id == fn.name:
+                        sinks.add(classify_listing_sink(trees, pars, rel2, c, _depth + 1))
+            if sinks and sinks <= {'RdSortedListing', 'RdMembership'}:
+                return 'RdSortedListing'
+            return 'RdUnknown'
         if fn.name == 'iter_package_resources':
             ok, n = True, 0
             for rel2, tree2 in trees.items():
